@@ -41,21 +41,27 @@ CLAIMED = {
    design_ref="DESIGN.md §6 C12"),
  "C01": dict(
    category="proof",
-   text="Theorems in coq/Props/C01.v (closed under the global context): a source AST of the documented language (Story/Source.v), "
-        "compile_ref (the compiled story the compiler must produce), a reference meaning defined on the SOURCE (Sem/Reference.v: "
-        "what entering a passage runs and what its lines show), and the theorem that the engine model's rendering of "
-        "compile_ref equals that reference meaning for every block (lines, glue, inline conditionals, @if/@for to any depth, "
-        "statements, jumps, directives) and that entering runs the top-level commands in source order; the top-level "
-        "whitespace normalisation is covered by a _partial theorem (content without blank-line clean-up). Tie, on every run: "
-        "generated source ASTs are printed as .bard text, compiled by the real compiler and compared with compile_ref inside "
-        "Coq; compile-to-file + JSON load is compared with in-memory compilation; and the real engine's play of the really "
-        "compiled story along random choice/undo/redo histories is compared step by step with the model's play of compile_ref.",
-   note="Trusted: Coq kernel + vm_compute; compile_ref and the engine model are hand-written and tied to the code by the "
-        "correspondence run only; the .bard printer and generators of harness/c01.py; author code restricted to the "
-        "mini-Python of Lang/PyMini.v. Legacy <<if>> syntax, tags, includes, inline comments and @start are outside the AST.",
-   technique="Coq proof by structural induction on source ASTs (compile_ref then engine = reference meaning) + vm_compute "
-             "correspondence of compiler and engine against compile_ref and the model",
-   design_ref="DESIGN.md §6 C01"),
+   text="Theorems in coq/Props/C01.v (24, closed under the global context), end to end from TEXT to MEANING in the models: "
+        "(1) string level - for every source story s of the documented language with printable s = true (an executable predicate "
+        "that every generated AST meets), the parser model run on the printed .bard text yields exactly compile_ref s: "
+        "printed_story_parses_to_compile_ref (parse_real (print_story s) = POk (compile_ref s)), with the per-line-kind steps, the "
+        "content-line tokenizer, and the @py / @if-@elif-@else / @for / join-choice block extractors at any indentation and nesting; "
+        "(2) AST level - the engine model's rendering of compile_ref s equals the reference meaning defined on the SOURCE "
+        "(Sem/Reference.v) for every list of lines (glue, inline conditionals, blocks to any depth, statements, jumps, directives), "
+        "entering runs the top-level commands in source order, every passage renders to its reference meaning up to deletion of "
+        "newline characters (state, jump, directives equal), the two whitespace normalisations delete newline tokens only and are the "
+        "same functions in the parser model and in compile_ref; (3) printed_source_plays_with_the_reference_meaning composes them. "
+        "Ties on every run: the Gallina printer = the Python printer on the generated ASTs; the REAL compiler's output on the printed "
+        "(and comment-decorated) text = compile_ref, inside Coq; the parser model = compile_ref on the same text; compile-to-file + JSON "
+        "load = in-memory compilation; the REAL engine's play of the really compiled story along random histories = the model's play "
+        "of compile_ref.",
+   note="Trusted: Coq kernel + vm_compute; parser model, compile_ref and engine model are hand-written and tied to the code by the "
+        "correspondence runs; generators of harness/c01.py; author code restricted to the mini-Python of Lang/PyMini.v in the runs "
+        "(arbitrary oracle in the theorems). _partial remains only: WHICH newlines the normalisations delete has no source-level "
+        "characterisation. Legacy <<if>> syntax, tags, includes and @start are outside the AST (C17 covers surface variants).",
+   technique="Coq proofs: induction over printed lines / block nesting for parser-model(print s) = compile_ref s, structural induction "
+             "on source ASTs for engine(compile_ref s) = reference meaning + vm_compute correspondence of the real compiler and engine",
+   design_ref="DESIGN.md §6 C01, §12.2"),
  "C20": dict(
    category="proof",
    text="Theorems in coq/Props/C20.v (closed under the global context) over a Gallina model of Wallet, Inventory, Shop, "
@@ -101,18 +107,23 @@ CLAIMED = {
    design_ref="DESIGN.md §6 C14"),
  "C17": dict(
    category="proof",
-   text="Helper-level theorems in coq/Props/C17.v (closed, all ASCII inputs, by induction) about Gallina models of "
-        "strip_inline_comment and detect_and_strip_indentation: an appended ' // comment' is invisible (exactly, and after "
-        "right-stripping unconditionally), \\// and //= are kept and do not start a comment (with the necessary side conditions "
-        "and vm_compute counterexamples showing they are necessary), uniform indentation by any whitespace prefix is invisible to "
-        "dedent, dedent is idempotent.  These are the _partial part of the whole claim 'parse(print style s) is independent of "
-        "style', which is NOT proved (the parser is not modelled end to end) and is decided on every run by the differential "
-        "oracle: generated stories printed in every surface style (legacy/@ forms, # lines, trailing // on one line kind at a "
-        "time, body indentation) must compile to identical dicts with the real compiler.",
-   note="Trusted: Coq kernel + vm_compute; Lex.v tied to the two real helpers by exhaustive short strings + random cases; "
-        "the story generator/printer (harness/storygen.py); the whole-story clause is differential evidence, not a theorem.",
-   technique="Coq proof about the lexical helpers + differential compile of every surface-style variant",
-   design_ref="DESIGN.md §6 C17"),
+   text="Theorems in coq/Props/C17.v (30, closed): WHOLE-INPUT statements about the parser model - trailing_comments_invisible: for "
+        "all line lists and every admissible decoration (' // text' appended to any story lines the comment pre-pass rewrites; side "
+        "condition: the decorated lines have no trailing blanks of their own, shown necessary by a counterexample = finding F17k) "
+        "parse of the decorated input = parse of the input, for all oracles and all extractors; '#' comment lines inserted at any "
+        "top-level position do not change parse (block-free inputs: unconditional; with blocks: for extractors that read only their "
+        "own block, discharged by evaluation for a concrete story - named _partial); legacy '<<for/if/elif/else/endif>>' and '@' "
+        "headers yield the same extractor results (_partial: not yet composed through parse). Helper level (older, _partial): "
+        "strip_inline_comment and dedent laws (uniform indentation invisible, idempotent). Differential on every run: generated "
+        "stories printed in every surface style and two-part style combination (legacy/@, # lines incl. column 0, trailing // per line "
+        "kind, body indentation, multi-line statements, @py blank shapes, under-indented @py lines) must compile to identical dicts "
+        "with the real compiler (13 k variants quick).",
+   note="Trusted: Coq kernel + vm_compute; parser model tied to the real compiler by the C11/C01 correspondence runs, Lex.v by "
+        "exhaustive short strings; the story generator/printer (harness/storygen.py). Indentation clause and <<py vs @py: whole-story "
+        "invariance is differential evidence only.",
+   technique="Coq proofs about the parser model's pre-pass and main loop (whole-input invariance) and the lexical helpers + "
+             "differential compile of every surface-style variant",
+   design_ref="DESIGN.md §6 C17, §12.2"),
  "C02": dict(
    category="proof",
    text="Theorems in coq/Props/C02.v (closed; every story, oracle, state): the choices render_passage offers are exactly the enabled candidates (condition holds - a failing condition counts as false - and repeatable or identity not used) of the current section, in order; choose(i) with a valid index navigates with the i-th offered choice's target and arguments; an invalid index returns IndexError with the whole engine state unchanged (stacks included); a taken one-time choice is marked and a marked one is never enabled; marks only grow; a repeatable choice is enabled iff its condition holds.  Known limit F02b (hooks changing variables after the offer was computed) is a listed known finding.  Tie + oracles: correspondence on stories with many one-time/conditional choices and invalid indices; independent recomputation of enabledness with Python eval; rejected-call state comparison.",
@@ -151,7 +162,7 @@ CLAIMED = {
    design_ref="DESIGN.md §6 C09"),
  "C10": dict(
    category="proof",
-   text="Theorems in coq/Props/C10.v: every offered choice belongs to the passage's current @join section; a '-> @join' choice stays in the passage, renders its own block once, then the text up to the next marker, offers the next section's choices and advances progress by exactly one, hook text last; an ordinary choice is a navigation to its target; after any successful goto the shown passage is at section 0 (re-entry restarts, also through jump chains).  Oracles: section numbers in choice texts, block/section texts, progress.",
+   text="Theorems in coq/Props/C10.v (18): every offered choice belongs to the passage's current @join section; the OUTPUT of a '-> @join' choice is exactly the text of one render of its own block, then of the tokens between marker k and marker k+1 (to the end when there is no further marker), then hook text; as an equation valid for every state: block once, section text once, filter of the next section's choices, counter - no other block, no passage entry, position unchanged (also on the ghost log: each block statement logged once, in order); the choices offered afterwards are exactly the filter of section k+1's candidates; one snapshot, redo cleared, one-time mark, undo restores exactly; an ordinary choice is a navigation to its target; after any successful goto the shown passage is at section 0 (re-entry restarts, also through jump chains).  Oracles: section numbers in choice texts, block/section texts, progress.",
    note="Trusted: Coq kernel + vm_compute; the hand-written model Engine/Engine.v is tied to bardic/runtime/engine.py only by the correspondence run (generated stories x histories, every step's result kind and full view compared inside Coq); author code is an arbitrary oracle record in the theorems and the mini-Python of Lang/PyMini.v in the correspondence; harness (generator, term printers). Assumes effect-free display expressions/conditions and no in-place effect of a failing statement before it fails.",
    technique='Coq proofs over the engine model (arbitrary author-code oracle) + vm_compute correspondence on generated stories x histories + direct oracles',
    design_ref="DESIGN.md §6 C10"),
